@@ -49,7 +49,7 @@ pub fn record(rules_file: &str, out: &str, nwords: usize) {
             if sylls.is_empty() { continue; }
             let word = v::make_word(&sylls, false);
             let (t2, w2) = (text.clone(), word.clone());
-            let rec = v::record(200_000, true, false, move || {
+            let rec = crate::util::rec(200_000, true, false, move || {
                 let rs = v::parse_rules(&[RuleGroup::from_rules(vec![t2])])?;
                 let steps = v::apply_structural(&rs, w2.clone())?;
                 Ok::<_, asca::Error>(steps.last().map(|s| s.word.clone()).unwrap_or(w2))
